@@ -19,6 +19,7 @@ RULE = ('Payloads from the C12 generator (both write paths: SignatureArray fast 
         'process under strace is SIGKILLed on entering its n-th write-type system call (pwrite64/write/ftruncate) on the output file, for every n, '
         'which places crashes inside H5Fclose as well. One evaluation = one (payload, crash point) pair; non-trivial = crash after the '
         'first attribute was written and before close returned; distinct by (payload hash, point).')
+RULE += ' Further: file opens are crash points (a kill before the output path is first opened must leave it untouched); the collection may be nested wrappers or one loaded from another file; (rare) byte-granular crash points: an LD_PRELOAD shim tears a write after N bytes and kills the writer, for N at the edges and at 16 places inside every write of the complete run (medium payloads; one fixed regress case).'
 ASSUMPTIONS = ['library-level crash points are h5py call boundaries, as the property states; crashes between two system calls inside H5Fclose '
                'are covered for a sample of payloads through strace fault injection (ptrace must be permitted in the sandbox)',
                'process death is modelled by SIGKILL, SIGTERM and SIGINT delivered at call boundaries: the kernel page cache survives (no power loss)']
